@@ -57,6 +57,8 @@ pub enum OpKind {
     NewRoom,
     /// room mutation: a new group added to the data room
     RoomGroup,
+    /// ONE mutation that adds a group to the data room and writes two rows into that same room
+    RoomData,
     /// pull the room from the prepared peer (synchronised batches)
     Pull,
     /// mutation stream with two mutations, then closed
@@ -156,7 +158,7 @@ pub fn generate(seed: u64, property: &str, thorough: bool) -> Trace {
     let mut used: BTreeSet<u32> = BTreeSet::new();
     let gen_op = |rw: &mut Rng, marker: &mut u32, multis: &mut Vec<u32>, used: &mut BTreeSet<u32>| -> Op {
         let free: Vec<u32> = multis.iter().cloned().filter(|m| !used.contains(m)).collect();
-        let w: [u32; 8] = [30, if free.is_empty() { 0 } else { 14 }, if free.is_empty() { 0 } else { 12 }, if free.is_empty() { 0 } else { 8 }, 8, 8, 8, 8];
+        let w: [u32; 9] = [30, if free.is_empty() { 0 } else { 14 }, if free.is_empty() { 0 } else { 12 }, if free.is_empty() { 0 } else { 8 }, 8, 8, 8, 6, 8];
         let k = rw.weighted(&w);
         let m = *marker;
         *marker += 1;
@@ -183,6 +185,7 @@ pub fn generate(seed: u64, property: &str, thorough: bool) -> Trace {
             4 => OpKind::NewRoom,
             5 => OpKind::RoomGroup,
             6 => OpKind::Pull,
+            7 => OpKind::RoomData,
             _ => OpKind::Stream,
         };
         Op { kind, marker: m }
@@ -292,6 +295,18 @@ pub fn directed(property: &str) -> Vec<Trace> {
                     Step::Arm { site: "stmt_sync_node".into(), hit: 2, kind: "crash".into() },
                     Step::One { op: Op { kind: OpKind::Pull, marker: 2 }, dt: 1000 },
                     Step::Probe { marker: 3 },
+                ],
+            ));
+            out.push(mk(
+                "C13 statement error on the second reference of a synchronised batch, then a fault-free request, then the pull again",
+                vec![
+                    Step::One { op: multi(1), dt: 1 },
+                    Step::Arm { site: "stmt_edge".into(), hit: 2, kind: "error_once".into() },
+                    Step::One { op: Op { kind: OpKind::Pull, marker: 2 }, dt: 1000 },
+                    Step::One { op: multi(3), dt: 1000 },
+                    Step::Probe { marker: 4 },
+                    Step::One { op: Op { kind: OpKind::Pull, marker: 5 }, dt: 1000 },
+                    Step::Probe { marker: 6 },
                 ],
             ));
             out.push(mk(
@@ -453,6 +468,7 @@ fn names_for(op: &Op) -> Vec<(String, &'static str)> {
             (format!("m{m}-pet"), "Pet"),
         ],
         OpKind::Stream => vec![(format!("m{m}-s1"), "Person"), (format!("m{m}-s2"), "Pet")],
+        OpKind::RoomData => vec![(format!("m{m}-rd1"), "Person"), (format!("m{m}-rd2"), "Pet")],
         _ => vec![],
     }
 }
@@ -522,6 +538,16 @@ fn issue(c: &mut Ctx, op: &Op) -> Result<JoinHandle<Result<Option<String>, Strin
         OpKind::RoomGroup => {
             let ka = dv::base64_encode(&c.w.nodes[0].vk);
             let q = format!(r#"mutate {{ sys.Room{{ id:"{room}" authorisations:[{{ name:"m{m}-group" rights:[{{entity:"Pet" mutate_self:true mutate_all:false}}] users:[{{verif_key:"{ka}"}}] }}] }} }}"#);
+            c.w.nodes[0].spawn(async move {
+                db.mutate(&q, None).await.map_err(|e| e.to_string())?;
+                Ok(None)
+            })
+        }
+        OpKind::RoomData => {
+            let ka = dv::base64_encode(&c.w.nodes[0].vk);
+            let q = format!(
+                r#"mutate {{ sys.Room{{ id:"{room}" authorisations:[{{ name:"m{m}-group" rights:[{{entity:"Pet" mutate_self:true mutate_all:false}}] users:[{{verif_key:"{ka}"}}] }}] }} Person{{ room_id:"{room}" name:"m{m}-rd1" }} Pet{{ room_id:"{room}" name:"m{m}-rd2" }} }}"#
+            );
             c.w.nodes[0].spawn(async move {
                 db.mutate(&q, None).await.map_err(|e| e.to_string())?;
                 Ok(None)
@@ -749,6 +775,7 @@ fn kind_s(k: &OpKind) -> &'static str {
         OpKind::RefDel { .. } => "refdel",
         OpKind::NewRoom => "newroom",
         OpKind::RoomGroup => "roomgroup",
+        OpKind::RoomData => "room-and-data",
         OpKind::Pull => "pull",
         OpKind::Stream => "stream",
     }
@@ -892,7 +919,7 @@ fn check_c13(c: &mut Ctx, at: &str) -> Result<(), String> {
         let shape = format!("{}:{}", kind_s(&op.kind), if under_fault { "under-fault" } else { "fault-free" });
         let _ = site;
         match &op.kind {
-            OpKind::Multi | OpKind::Stream => {
+            OpKind::Multi | OpKind::Stream | OpKind::RoomData => {
                 let names = names_for(&op);
                 let mut present = 0;
                 let mut total = 0;
@@ -1015,6 +1042,16 @@ fn check_c13(c: &mut Ctx, at: &str) -> Result<(), String> {
             c.w.violation("C13", "acked-lost/synchronised-batch", format!("at {at}: a pull completed Ok but none of the peer's {ent} rows is visible"));
         }
     }
+    // the references of the prepared peer (one per row, all written the same day) arrive in one batch too: all or none,
+    // whether or not the rows they start from have arrived yet
+    {
+        let conn = c.w.nodes[0].oracle_conn()?;
+        let peer_key = c.w.nodes[1].vk.clone();
+        let n: i64 = conn.query_row("SELECT count(*) FROM _edge WHERE verifying_key = ?1", [peer_key], |r| r.get(0)).map_err(|e| e.to_string())?;
+        if n != 0 && n as usize != c.cfg.peer_rows {
+            c.w.violation("C13", "partial-operation/synchronised-references", format!("at {at}: {n}/{} references of one synchronised batch are stored", c.cfg.peer_rows));
+        }
+    }
     Ok(())
 }
 
@@ -1083,6 +1120,17 @@ fn check_c18(c: &mut Ctx) -> Result<(), String> {
                 let idtxt = dv::uid_decode(&rid).map(|u| format!("id: {:?}", u)).unwrap_or("?".into());
                 if !c.events_rooms.iter().any(|r| r.contains(&idtxt)) {
                     c.w.violation("C18", "room-change-not-announced/new-room", format!("room created by m{} was acknowledged but no RoomModified event carries it", op.marker));
+                }
+            }
+            OpKind::RoomData => {
+                c.w.probe("c18_room_change");
+                need.push((room.clone(), "Person".into(), day));
+                need.push((room.clone(), "Pet".into(), day));
+                let idtxt = format!("id: {:?}", c.room);
+                groups_acked += 1;
+                let want = 1 + groups_acked;
+                if !c.events_rooms.iter().any(|r| r.contains(&idtxt) && r.matches("Authorisation {").count() >= want) {
+                    c.w.violation("C18", "room-change-not-announced/room-update", format!("group added by m{} (together with rows) was acknowledged but no RoomModified event carries the room with that group", op.marker));
                 }
             }
             OpKind::RoomGroup => {
